@@ -1329,7 +1329,7 @@ class SyncInterpreter(BaseInterpreter[TContext, TEvent]):
                     # 🏁 Exit loop if the child reaches a top-level final state.
                     if any(
                         s.is_final and s.parent == child.machine
-                        for s in child._active_state_nodes
+                        for s in list(child._active_state_nodes)
                     ):
                         break
                     time.sleep(0.01)  # 🤏 Yield to prevent busy-waiting.
@@ -1377,7 +1377,7 @@ class SyncInterpreter(BaseInterpreter[TContext, TEvent]):
         """
         reached_final = any(
             node.is_final and node.parent is child.machine
-            for node in child._active_state_nodes
+            for node in list(child._active_state_nodes)
         )
         if not reached_final:
             logger.debug(
@@ -1489,8 +1489,12 @@ class SyncInterpreter(BaseInterpreter[TContext, TEvent]):
                     return
 
                 # Fire only if interpreter still running AND owner still active.
+                # 📸 Look at a copy: this thread runs concurrently with the
+                #    one draining the queue, and iterating the live set while
+                #    a transition mutates it raised "Set changed size during
+                #    iteration" - the expiry was lost for good.
                 if self.status == "running" and any(
-                    s.id == owner_id for s in self._active_state_nodes
+                    s.id == owner_id for s in list(self._active_state_nodes)
                 ):
                     logger.debug(
                         "🕒 Timer expired -> sending event '%s' [key=%s].",
